@@ -28,6 +28,9 @@ pub struct NodeDecl {
     /// the module shuts itself down (for good) when it handles its ping; it is still torn down exactly once
     #[serde(default)]
     pub shutdown_on_ping: bool,
+    /// the module shuts itself down in its first start-up stage; its remaining declared stages are still delivered
+    #[serde(default)]
+    pub shutdown_in_stage0: bool,
 }
 
 #[derive(Debug, Clone, Serialize, Deserialize, PartialEq)]
@@ -70,6 +73,7 @@ struct Node {
     ping_ns: Option<u64>,
     end_err: bool,
     shutdown_on_ping: bool,
+    shutdown_in_stage0: bool,
     /// paths of modules that shut themselves down during the run (a lookup may then report them as inactive)
     may_be_down: Vec<String>,
 }
@@ -115,6 +119,9 @@ impl Module for Node {
         if stage == 0 {
             if let Some(t) = self.ping_ns {
                 schedule_at(Message::default(), SimTime::from_duration(Duration::from_nanos(t)));
+            }
+            if self.shutdown_in_stage0 {
+                current().shutdown();
             }
         }
     }
@@ -163,7 +170,11 @@ fn make_node(case: &Case, i: usize) -> Node {
         ping_ns: d.ping_ns,
         end_err: d.end_err,
         shutdown_on_ping: d.shutdown_on_ping,
-        may_be_down: (0..case.nodes.len()).filter(|c| case.nodes[*c].shutdown_on_ping && case.nodes[*c].ping_ns.is_some()).map(|c| case.path(c)).collect(),
+        shutdown_in_stage0: d.shutdown_in_stage0,
+        may_be_down: (0..case.nodes.len())
+            .filter(|c| (case.nodes[*c].shutdown_on_ping && case.nodes[*c].ping_ns.is_some()) || case.nodes[*c].shutdown_in_stage0)
+            .map(|c| case.path(c))
+            .collect(),
     }
 }
 
@@ -295,7 +306,8 @@ pub fn execute(case: &Case) -> (Vec<Finding>, usize) {
         }
     }
     let msgs = log.iter().filter(|e| matches!(e, Ev::Msg(_))).count();
-    let want_msgs = case.nodes.iter().filter(|n| n.ping_ns.is_some() && n.stages > 0).count();
+    // (a module that shut itself down during start-up does not handle its ping)
+    let want_msgs = case.nodes.iter().filter(|n| n.ping_ns.is_some() && n.stages > 0 && !n.shutdown_in_stage0).count();
     if msgs != want_msgs {
         f.push(("messages", format!("{msgs} self messages handled, {want_msgs} scheduled")));
     }
@@ -453,6 +465,7 @@ pub fn gen_tree(rng: &mut Rng, n: usize) -> Vec<NodeDecl> {
             ping_ns: if rng.chance(1, 2) { Some(1 + rng.below(1_000_000)) } else { None },
             end_err: rng.chance(1, 12),
             shutdown_on_ping: rng.chance(1, 10),
+            shutdown_in_stage0: rng.chance(1, 12),
         });
     }
     nodes
